@@ -382,6 +382,23 @@ def _r3(repo: Repo, L: Ledger):
                         local = any(isinstance(x, ast.Assign) and any(is_name(t, name) for t in x.targets) for x in walk_shallow(f.node))
                         if not local:
                             bad.append(f"{f.short}: {norm(n)[:50]}")
+            if not cname and f.module.name == modname and name not in f.params():
+                # aliases: locals taken out of the shared object, then mutated; reads of a defaultdict insert keys
+                aliases = set()
+                is_dd = isinstance(repo.modules[modname].assigns.get(name), ast.Call) and "defaultdict" in norm(repo.modules[modname].assigns[name].func)
+                for x in walk_shallow(f.node):
+                    if isinstance(x, ast.Assign) and isinstance(x.targets[0], ast.Name) and any(isinstance(y, ast.Name) and y.id == name for y in ast.walk(x.value)):
+                        aliases.add(x.targets[0].id)
+                    if is_dd and isinstance(x, ast.Subscript) and is_name(x.value, name):
+                        bad.append(f"{f.short}: {norm(x)[:50]} (defaultdict read inserts the key)")
+                for x in walk_shallow(f.node):
+                    if isinstance(x, ast.Call) and isinstance(x.func, ast.Attribute) and isinstance(x.func.value, ast.Name) and x.func.value.id in aliases and x.func.attr in ("append", "extend", "update", "add", "pop", "clear", "insert", "setdefault", "remove"):
+                        bad.append(f"{f.short}: {norm(x)[:50]} (alias of {name})")
+                    if isinstance(x, ast.Assign | ast.AugAssign):
+                        tg = x.targets if isinstance(x, ast.Assign) else [x.target]
+                        for t in tg:
+                            if isinstance(t, ast.Subscript) and isinstance(t.value, ast.Name) and t.value.id in aliases:
+                                bad.append(f"{f.short}: {norm(x)[:50]} (alias of {name})")
         L.check(not bad, "R3", f"{cname + '.' if cname else modname + '.'}{name}", "shared table never mutated", f"process-global mutable object is mutated: {bad[:2]} — a second invocation in the same process sees the first one's state", modname)
     L.floor("R3", "module/class-level mutable objects", n_mut, 2)
     # mutable defaults
